@@ -80,3 +80,9 @@ claim("C20", "LoginLog.tla states what a log record may contain (tokens; never t
       note="Trusted base: TLC; the tokeniser (literal search for the concrete password and its stripped form in every formatted record); "
            "password classes are a finite family designed around the censoring code paths (verb spelling, slicing by length, format "
            "directives), not all strings.", design="7")
+claim("C09", "ClientTree.tla states the placement rules (destination/source-name, or destination with write_into; missing parents "
+      "created; recursive listing = every entry of the subtree once under the path as given; remove = subtree gone, nothing else). "
+      "Source trees of depth <= 2 / fan-out <= 2 x destinations x write_into x working directories x pre-existing content x block "
+      "sizes x MLSD and LIST-fallback servers are run through the real Client.upload/download/list/remove against the real server and "
+      "TLC compares the resulting trees including contents.", "TLC judgement of recorded client tree operations against ClientTree.tla",
+      note="Trusted base: TLC; client side on MemoryPathIO; destinations containing '..' are outside the stated family.")
